@@ -28,6 +28,28 @@ def term_events(traces, scen):
         for k, f in enumerate(frames):
             for g in f["groups"]:
                 last[g["b"]] = k
+        # a finished bar hands its place to a successor only if the successor exists when the bar's second terminal frame is
+        # flushed; a successor created later (recorded finding F2b) leaves the bar to be popped like any other:
+        # True = hands over, False = is popped, None = the Add raced with that frame (the trace is judged up to there)
+        cyc, cycs = 0, {}
+        for e in evs:
+            if e["ev"] == "cycle":
+                cyc = e["seq"]
+            elif e["ev"] == "out":
+                cycs[e["k"]] = cyc
+        addret = {e["b"]: e["seq"] for e in evs if e["ev"] == "ret" and e["op"] == "add" and not e.get("err")}
+        hands = {}
+        for b in succ:
+            tf = [f for f in frames if any(g["b"] == b and g["fl"] != "-" for g in f["groups"])]
+            rets = [addret[o["b"]] for o in adds.values() if o.get("after") == b and o["b"] in addret]
+            if len(tf) < 2 or not rets:
+                hands[b] = bool(rets)
+            elif min(rets) < cycs.get(tf[1]["k"], 0):
+                hands[b] = True
+            elif min(rets) > tf[1]["seq"]:
+                hands[b] = False
+            else:
+                hands[b] = None
         for k, f in enumerate(frames):
             if any(m for m in f["malformed"]):
                 break
@@ -35,7 +57,9 @@ def term_events(traces, scen):
             undecided = False
             for g in f["groups"]:
                 b = g["b"]
-                popped = (pop and b in adds and not adds[b].get("nopop") and b not in succ and g["fl"] != "-" and last[b] == k)
+                popped = (pop and b in adds and not adds[b].get("nopop") and not hands.get(b, False) and g["fl"] != "-" and last[b] == k)
+                if pop and b in hands and hands[b] is None and g["fl"] != "-" and last[b] == k:
+                    undecided = True
                 if popped and k == len(frames) - 1 and not normal:
                     undecided = True
                 n = 1 + g["ext"]
